@@ -132,7 +132,7 @@ def _spec_fingerings(opens, pitches, max_distance):
 def c20_fingering(ti: int, p1: int, p2: int, p3: int, n: int, md: int) -> bool:
     t = pick(P["tunings"], ti)
     n = enum(n, 1, P["maxn"] + 1)
-    md = enum(md, 2, 6)
+    md = enum(md, 2, 7)
     opens = _open(t)
     ps = [p1, p2, p3][:n]
     for k in range(n, 3):
@@ -149,6 +149,30 @@ def c20_fingering(ti: int, p1: int, p2: int, p3: int, n: int, md: int) -> bool:
             return False
     for w in want:
         if w not in [list(g) for g in got]:
+            return False
+    tot = [sum(f for _, f in g) for g in got]
+    return tot == sorted(tot)
+
+
+def c20_fingering_frets(f1: int, f2: int, f3: int) -> bool:
+    """three notes given as (string, fret) positions with symbolic frets: the fingering list equals the
+    brute-force specification (so in particular it contains this very position iff its span allows)"""
+    t = P["tuning"]
+    s1, s2, s3 = P["strings"]
+    md = P["md"]
+    opens = _open(t)
+    f1, f2, f3 = enum(f1, 0, 9), enum(f2, 0, 9), enum(f3, 0, 9)  # enumerated: the search is combinatorial, not arithmetic
+    ps = [opens[s1] + f1, opens[s2] + f2, opens[s3] + f3]
+    got = t.find_fingering([Note(p) for p in ps], md)
+    want = _spec_fingerings(opens, ps, md)
+    if len(got) != len(want):
+        return False
+    gl = [list(g) for g in got]
+    for g in gl:
+        if g not in want:
+            return False
+    for w in want:
+        if w not in gl:
             return False
     tot = [sum(f for _, f in g) for g in got]
     return tot == sorted(tot)
@@ -333,6 +357,12 @@ def claims(tier):
     six = [t for t in SMALL if t.count_strings() == 6][: (1 if q else 4)]
     for t in six:
         cl.append(Claim("fingering6[%s/%s]" % (t.instrument, t.description), c20_fingering, params={"tunings": [t], "maxn": 2 if q else 3, "span": 7 if q else 16}, group="c20_fingering", pre=[lambda ti, n, md: ti == 0 and 1 <= n <= P["maxn"] and md == 4], timeout=1500 if q else 3200, bounds="find_fingering on the six-string %s %s: 1..%d notes, pitches symbolic within %d semitones, max_distance 4" % (t.instrument, t.description, 2 if q else 3, 7 if q else 16)))
+    g = [t for t in SMALL if t.count_strings() == 6][0]
+    import itertools
+    triples = [(0, 1, 2), (1, 2, 4), (3, 4, 5)] if q else list(itertools.combinations(range(6), 3))
+    for tr in triples:
+        for md in ((5,) if q else (3, 5, 6)):
+            cl.append(Claim("fingering3[strings=%d%d%d,md=%d]" % (tr + (md,)), c20_fingering_frets, params={"tuning": g, "strings": tr, "md": md}, group="c20_fingering", pre=[lambda f1, f2, f3: 0 <= f1 <= 8 and 0 <= f2 <= 8 and 0 <= f3 <= 8], timeout=1500 if q else 3200, bounds="find_fingering on %s %s: three notes at frets 0..8 (enumerated) of strings %r, max_distance %d, against the brute-force specification" % (g.instrument, g.description, tr, md)))
     for ti in range(len(GUITARS) if not q else 2):
         cl.append(Claim("chord_fingering[%d]" % ti, c20_chord_fingering, params={"ti": ti}, group="c20_chord_fingering", pre=[lambda ti, ci, ri: ti == P["ti"] and 0 <= ci < (len(CHORDS) if not q else 3) and 0 <= ri < (12 if not q else 4)], timeout=1500 if q else 3200, per_path=120, bounds="find_chord_fingering on tuning %r: %d chord types x %d roots: every result sounds only and all chord pitch classes, span < 4, fingers <= 4, one entry per string" % (GUITARS[ti].description, len(CHORDS) if not q else 3, 12 if not q else 4)))
     tabt = SMALL[:: (15 if q else 4)]
